@@ -165,11 +165,11 @@ func (rf *RecFacts) leafClass(typ string) string {
 		return "struct"
 	}
 	switch typ {
-	case genfacts.StructA, genfacts.StructE, genfacts.StructR:
+	case genfacts.StructA, genfacts.StructE, genfacts.StructR, "ISt", "IBs":
 		return "struct"
-	case genfacts.MessageA, genfacts.MessageE:
+	case genfacts.MessageA, genfacts.MessageE, "IMs":
 		return "message"
-	case genfacts.UnionA:
+	case genfacts.UnionA, "IUn":
 		return "union"
 	}
 	return typ
@@ -324,7 +324,7 @@ func normPrefix(items []wire.Item) []wire.Item {
 func init() { register("C01", checkC01) }
 
 func checkC01(c *core.Ctx) {
-	c.Explainf("C01 (decided clause: encoder/decoder emitters are siblings). The generator's own source is folded over %s; every emitted MarshalBebopTo/EncodeBebop/UnmarshalBebop/MustUnmarshalBebop/DecodeBebop is read into a wire-op signature and the decoders are required to GET exactly what the encoders PUT (same primitives via the resolved iohelp functions, same container walk, same framing, same field set with only deprecated message fields skipped on encode). NOT decided: that equal signatures imply equal values (NaN payloads, time zones, nil-vs-empty) — that rests on iohelp (C20) and Go semantics.", "abstract schema shapes (every leaf class x containers to the tier's depth x 32 option sets)")
+	c.Explainf("C01 (decided clause: encoder/decoder emitters are siblings). The generator's own source is folded over %s; every emitted MarshalBebopTo/EncodeBebop/UnmarshalBebop/MustUnmarshalBebop/DecodeBebop is read into a wire-op signature and the decoders are required to GET exactly what the encoders PUT (same primitives via the resolved iohelp functions, same container walk, same framing, same field set with only deprecated message fields skipped on encode). R6: Size() (hence the length prefix decoders rely on) equals what the encoders write. R7: the iohelp primitives behind the signatures move exactly their width with one Go type both ways, and ErrorReader.Read absorbs read fragmentation. NOT decided: that equal signatures imply equal values for every bit pattern (NaN payloads, time zones, nil-vs-empty) — Go semantics.", "abstract schema shapes (every leaf class x containers to the tier's depth x 32 option sets)")
 	gr := startGen(c)
 	if gr == nil {
 		return
@@ -355,8 +355,20 @@ func checkC01(c *core.Ctx) {
 			}
 		}
 		_ = bw
-		_ = sw
+		// R6: decoders bound a message/union body by its length prefix, so the
+		// prefix the encoders write (Size()-K) must be the exact number of bytes
+		// that follow: Size() has to equal what EncodeBebop writes.
+		if sz := rf.M[mSZ]; sz.Present && sw.Present {
+			want := wire.SzString(normSzTop(wire.SizeOf(sw.Items)))
+			got := wire.SzString(normSzTop(sz.Size))
+			c.Check("R6", "length prefix is exact: Size vs EncodeBebop "+bodyKeyAll(rf), anchorPos(gr.p, rf.Spec.Kind, mSZ), got == want,
+				fmt.Sprintf("Size() computes %s but EncodeBebop writes %s: the length prefix (Size()-K) misleads every decoder that bounds the record by it — %s", got, want, rf.where(sz.Decl.Pos())))
+		}
 	}
+	// R7: the stream decoders only read back what the stream encoders wrote if
+	// every iohelp primitive moves exactly its width, however reads are split
+	iohelpStreamWidths(c, gr.p, "R7")
+	iohelpLayoutRules(c, gr.p, "R7w", "R7g", "R7b")
 	gr.sample(3)
 }
 
